@@ -78,7 +78,7 @@ _LAY = {'C01': 'trees', 'C02': 'trees', 'C03': 'hash', 'C07': 'heap', 'C12': 'dl
 for _pid, _fam in _LAY.items():
     if _pid in CHECKS:
         CHECKS[_pid]['runs'] = list(CHECKS[_pid]['runs']) + [
-            {'harness': 'layout', 'mode': _fam, 'sources': ['harness/layout.c'], 'configs': both(['dbg-asan', 'rel-asan']), 'workers': 16}]
+            {'harness': 'layout', 'mode': _fam, 'sources': ['harness/layout.c'], 'configs': both(['dbg-asan', 'rel-asan', 'rel-native']), 'workers': 16}]
         CHECKS[_pid]['assumptions'] = list(CHECKS[_pid].get('assumptions', [])) + [
             'supplement: ' + _fam + ' elements with the node at offsets past 2^16, 2^17, 2^20 and 2^24; the library may write nothing of an element but its node (shadow copy compared after every call, payload rewritten by the owner between calls)']
 
